@@ -471,14 +471,14 @@ def run(ctx):
         return replay(ctx)
     quick = ctx.tier == 'quick'
     if quick:
-        cfg = write_cfg(ctx, 'Interp.cfg', dims=[1, 2], npoly=1, all1d=True, nrep=6, nrep3=1, full2d=False,
+        cfg = write_cfg(ctx, 'Interp.cfg', dims=[1, 2], npoly=1, all1d=True, nrep=5, nrep3=1, full2d=False,
                         interior=False, exset=[True, False], exfull=False)
     else:
         cfg = write_cfg(ctx, 'Interp.cfg', dims=[1, 2, 3], npoly=2, all1d=True, nrep=8, nrep3=3, full2d=False,
                         interior=False, exset=[True, False])
     r, exports = run_tlc(ctx, cfg)
     groups = group(exports)
-    items = build_items(groups, ctx, mm_every=4 if quick else 6)
+    items = build_items(groups, ctx, mm_every=5 if quick else 6)
     n = nproc()
     # big groups first, round-robin over chunks
     order = sorted(range(len(items)), key=lambda i: -len(items[i][1]) * (3 ** items[i][0]['dim']))
@@ -525,7 +525,7 @@ def run(ctx):
                 '(grid, table) groups through MetaModelStructuredComp; non-trivial = distinct scenarios whose point is not '
                 'a strictly interior node' %
                 ('1-D: all 336 strictly increasing grids of 3-5 points in -4..4; 2-D: all pairs of %d representative grids'
-                 % (6 if quick else 8) + ('' if quick else '; 3-D: 3 grids'), 1 if quick else 2, 4 if quick else 6))
+                 % (5 if quick else 8) + ('' if quick else '; 3-D: 3 grids'), 1 if quick else 2, 5 if quick else 6))
     ctx.assumptions = [
         'tables are integer polynomials of the class each method provably reproduces (akima, cubic, slinear, '
         'scipy_slinear: multilinear; lagrange2: tensor quadratic; lagrange3, scipy_cubic/quintic on >=4 points per axis: '
